@@ -1,6 +1,7 @@
 package c17
 
 import (
+	"regexp"
 	"fmt"
 	"strings"
 
@@ -42,7 +43,7 @@ var (
 	poolCost   = u64s(0, 1, 10, 10, 4294967296, 18446744073709551615)
 	poolRFlags = u64s(0, 1, 1, 2, 3, 4)
 	poolExp    = u64s(0, 1, 60000, 4294967296, 9223372036854, 9223372036855, 9223372036854775808, 18446744073709551615)
-	poolMtu    = u64s(0, 1, 10, 35, 36, 37, 56, 57, 63, 64, 65, 100, 576, 1280, 1500, 8800, 8801, 65536, 4294967296, 9223372036854775808, 18446744073709551615)
+	poolMtu    = u64s(0, 1, 10, 35, 36, 37, 56, 57, 63, 64, 65, 66, 67, 68, 69, 70, 71, 72, 73, 80, 100, 576, 1280, 1500, 8800, 8801, 65536, 4294967296, 9223372036854775808, 18446744073709551615)
 	poolCap    = u64s(0, 1, 100, 1024, 65535, 2147483648, 4294967296, 9223372036854775807, 9223372036854775808, 18446744073709551615)
 	poolPers   = u64s(0, 0, 1, 2, 2, 3, 4294967296)
 	poolFFlags = u64s(0, 1, 2, 3, 4, 5, 7)
@@ -425,6 +426,14 @@ func genOp(g *common.Gen) {
 			for _, fid := range []string{"3", "4", "5", "2"} {
 				if strings.Contains(params, "F="+fid+";") || strings.HasSuffix(params, "F="+fid) || (fid == fmt.Sprint(from) && !strings.Contains(params, "F=")) {
 					g.Op("send %s %d", fid, common.Pick(r, []int{60, 300, 1400, 4000, 8000}))
+					// a small accepted MTU: packets that need fragmenting, with downstream PIT tokens of every
+					// legal length (the header grows with the token until nothing is left for payload)
+					if m := regexp.MustCompile(`X=(\d+)`).FindStringSubmatch(params); m != nil && len(m[1]) <= 3 && common.Atoi(m[1]) <= 120 {
+						for tl := 1; tl <= 32; tl++ {
+							g.Op("send %s %d %d", fid, common.Pick(r, []int{200, 300, 1400}), tl)
+						}
+						g.Stat("send.token-length-sweep")
+					}
 					g.Stat("send")
 					break
 				}
